@@ -357,7 +357,7 @@ Proof.
     destruct (h_inc h).
     + change tok_incremental with incremental_bytes. rewrite match_tok_prefix. rewrite Hget. reflexivity.
     + cbn [app]. assert (Hno : a_match_tok tok_incremental (amk (h_nl h ++ R) ln3) = (false, amk (h_nl h ++ R) ln3)).
-      { unfold a_match_tok. cbn [rest]. rewrite Enl. cbn [app length tok_incremental firstn list_eqb].
+      { unfold a_match_tok. cbn [rest]. rewrite Enl. cbn [app length tok_incremental V.Gen.Consts_C01.rd_tok_incremental firstn list_eqb].
         assert (E : (cn =? 105) = false) by lia. rewrite E. reflexivity. }
       rewrite Hno. rewrite Hget. reflexivity.
   - rewrite Hc3. eexists; reflexivity.
